@@ -889,6 +889,10 @@ func (c *Ctx) mapStoreSafeAt(fd *ast.FuncDecl, as ast.Node, ix *ast.IndexExpr) b
 	if safe {
 		return true
 	}
+	// a map field that every construction of its struct type in the package initialises
+	if f := c.fieldOfSel(base); f != nil && c.structMapFieldAlwaysMade(f) {
+		return true
+	}
 	// a map that is a field of a value built in this function by a literal with that field set to make/literal
 	if p, ok := c.apath(base); ok && len(p.Steps) > 0 {
 		for _, d := range c.localDefs(fd)[p.Root] {
@@ -924,7 +928,6 @@ var auditedPanicSites = map[string]string{
 	"MustLoadSwagger20Schema/panic/":                                            "embedded meta-schema; decoding a constant asset that the test-suite loads",
 	"defaultResolutionCache/must/MustLoadSwagger20Schema()":                     "see MustLoadSwagger20Schema",
 	"defaultResolutionCache/must/MustLoadJSONSchemaDraft04()":                   "see MustLoadJSONSchemaDraft04",
-	"schemaLoader.isCircular/nil-map-store/r.context.circulars":                 "circulars is made in newResolverContext, the only constructor of resolverContext (checked by ctx-private)",
 	// GOOS=windows only (normalizer_windows.go), analysed in the thorough tier
 	"fixWindowsURI/slice/drive[:1]": "dominated by len(drive) > 0",
 	"fixWindowsURI/index/drive[i]":  "loop `i := len(drive)-1; for i >= 0 && ...drive[i]...; i--`: the index test i >= 0 is the left operand of the same && and i starts at len-1",
@@ -1050,4 +1053,108 @@ func (c *Ctx) refTextProvenance(fd *ast.FuncDecl, e ast.Expr, depth int) string 
 		return cls
 	}
 	return exprString(e)
+}
+
+// structMapFieldAlwaysMade: the map-typed field f of a package struct type T is non-nil in every value of T the
+// package can build: every composite literal of T sets f to make(...) or a map literal, T is never obtained as a
+// zero value (new(T), a variable, field, array or map element of type T by value), and every assignment to the
+// field stores make(...) or a literal.
+func (c *Ctx) structMapFieldAlwaysMade(f *types.Var) bool {
+	if _, isMap := f.Type().Underlying().(*types.Map); !isMap {
+		return false
+	}
+	var owner *types.Named
+	idx := -1
+	sc := c.Types.Scope()
+	for _, n := range sc.Names() {
+		tn, ok := sc.Lookup(n).(*types.TypeName)
+		if !ok {
+			continue
+		}
+		nt, ok := tn.Type().(*types.Named)
+		if !ok {
+			continue
+		}
+		if st, ok := nt.Underlying().(*types.Struct); ok {
+			for i := 0; i < st.NumFields(); i++ {
+				if st.Field(i) == f {
+					owner, idx = nt, i
+				}
+			}
+		}
+	}
+	if owner == nil || owner.Obj().Exported() {
+		return false // an exported type can be built by anyone
+	}
+	isOwner := func(t types.Type) bool {
+		return t != nil && types.Identical(types.Unalias(t), owner)
+	}
+	isMade := func(e ast.Expr) bool {
+		switch x := unparen(e).(type) {
+		case *ast.CompositeLit:
+			return true
+		case *ast.CallExpr:
+			return c.isBuiltin(x, "make")
+		}
+		return false
+	}
+	ok, lits := true, 0
+	for _, file := range c.Files {
+		ast.Inspect(file, func(n ast.Node) bool {
+			switch x := n.(type) {
+			case *ast.CompositeLit:
+				if !isOwner(c.typeOf(x)) {
+					return true
+				}
+				lits++
+				set := false
+				for i, el := range x.Elts {
+					if kv, isKV := el.(*ast.KeyValueExpr); isKV {
+						if id, isId := kv.Key.(*ast.Ident); isId && id.Name == f.Name() && isMade(kv.Value) {
+							set = true
+						}
+					} else if i == idx && isMade(el) {
+						set = true
+					}
+				}
+				if !set {
+					ok = false
+				}
+			case *ast.CallExpr:
+				if c.isBuiltin(x, "new") && len(x.Args) == 1 && isOwner(c.typeOf(x.Args[0])) {
+					ok = false
+				}
+			case *ast.ValueSpec:
+				for i, nm := range x.Names {
+					if i >= len(x.Values) && isOwner(c.typeOf(nm)) {
+						ok = false // zero value
+					}
+				}
+			case *ast.Field:
+				if x.Type != nil && isOwner(c.typeOf(x.Type)) {
+					ok = false // held by value somewhere (struct field, parameter, result): a zero value may exist
+				}
+			case *ast.ArrayType:
+				if isOwner(c.typeOf(x.Elt)) {
+					ok = false
+				}
+			case *ast.MapType:
+				if isOwner(c.typeOf(x.Value)) {
+					ok = false
+				}
+			case *ast.AssignStmt:
+				for i, l := range x.Lhs {
+					if c.fieldOfSel(l) == f {
+						if len(x.Lhs) != len(x.Rhs) || !isMade(x.Rhs[i]) {
+							ok = false
+						}
+					}
+				}
+			case *ast.StarExpr:
+				// *p = T{} style whole-value overwrite is a CompositeLit and handled above
+			}
+			return true
+		})
+	}
+	return ok && lits > 0
 }
